@@ -306,6 +306,20 @@ Theorem C04_fragment_first_faults_iff_empty :
   end.
 Proof. exact frag_first_faults_iff_empty. Qed.
 Print Assumptions C04_fragment_first_faults_iff_empty.
+(* the same for a body with conditional expressions (ColFirstB) *)
+Theorem C04_fragment_first_with_conditionals_faults_iff_empty :
+  forall (bk : FragTranslate.backend) (name : string) (cr : collref) (ps : guard) (body : bexp) (line : string)
+         (n0 : nat) (ev : event) (ms : frame) (f : value -> bool) (g : value -> value) (l : list value),
+  let r := [(name, ColFirstB cr ps body line)] in
+  base_ok (c_base cr) = true -> members_init r (n0 + row_size r) 0 ms ->
+  assoc_ss (c_ctype cr, c_bank cr) (ev_colls ev) = Some (VVec l) ->
+  passes_total ev ps l f -> (forall v, In v l -> f v = true -> db ev v body = ROk (g v)) ->
+  match filter f l with
+  | [] => run_event (prog_row bk r n0) ms ev = RFault FThrow
+  | v :: _ => exists ms', run_event (prog_row bk r n0) ms ev = ROk ([[conv (btype body) (g v)]], ms')
+  end.
+Proof. exact frag_firstb_faults_iff_empty. Qed.
+Print Assumptions C04_fragment_first_with_conditionals_faults_iff_empty.
 
 (* indexing: e.Coll(bank)[i].m() as a column - for EVERY collection, index, method, first name index, event and member state
    the job fails (std::out_of_range of the bounds-checked at()) exactly when the collection has no element number i, and
